@@ -14,7 +14,7 @@ use rayon::prelude::*;
 use serde_json::{json, Value};
 
 const RULE: &str = "literals: (1) exhaustive single-placeholder derivations of the std::fmt grammar \
-(7 args x 10 fill/align x 3 sign x # x 0 x 6 widths x 6 precisions x 11 types x 5 trailing-ws (incl. U+3000), with and without ':' for empty specs), \
+(9 args x 10 fill/align x 3 sign x # x 0 x 6 widths x 6 precisions x 11 types x 5 trailing-ws (incl. U+3000), with and without ':' for empty specs), \
 (2) one-edit neighbours of a seeded sample of (1), (3) all strings up to a length bound over a 28-symbol alphabet with 1-4 byte chars, \
 (4) proptest sequences of placeholders/text/escapes, (5) corpus. Oracle: rustc_parse_format via fmtref. \
 Non-trivial = std accepts it and it has >=1 placeholder, or std rejects it and it is within one edit of an accepted literal / derive_more's parser accepts it; distinct by literal text";
@@ -40,7 +40,9 @@ pub fn ref_parse_all(lits: &[String]) -> Result<Vec<RefParse>, String> {
 }
 
 pub fn enumerate_grammar() -> Vec<String> {
-    let args = ["", "0", "1", "12", "a", "_a", "é"];
+    // (names incl. one with a combining mark that is XID_Continue but not alphanumeric, and one with a character that is
+    // alphanumeric but not XID_Continue)
+    let args = ["", "0", "1", "12", "a", "_a", "é", "क्ष", "a²"];
     let fa = ["", "<", "^", ">", "*<", "<<", "0>", "é^", " >", "}<"];
     let sign = ["", "+", "-"];
     let alt = ["", "#"];
